@@ -231,6 +231,7 @@ DEFAULT_PROFILE: Dict[str, Any] = {
     "p_ice": 0.25,
     "p_human": 0.2,
     "p_home_station": 0.6,
+    "config_variety": True,
     "soc": [0.02, 0.05, 0.1, 0.15, 0.3, 0.6, 0.9, 1.0],
     "n_stations": (1, 4),
     "plug_counts": [1, 1, 2, 3],
@@ -510,6 +511,23 @@ def random_spec(seed: int, profile: Optional[Dict[str, Any]] = None) -> Dict[str
     disp: Dict[str, Any] = {"charging_search_type": search_type, "max_search_radius_km": rnd.choice([4.0, 8.0, 12.0])}
     if P.get("idle_time_out") is not None:
         disp["idle_time_out_seconds"] = P["idle_time_out"]
+    elif rnd.random() < 0.3:
+        disp["idle_time_out_seconds"] = rnd.choice([60, 300, 900])
+    # configuration variety (each a documented setting): which activities the dispatcher may take vehicles from,
+    # range thresholds, fast-charge limit
+    if P.get("config_variety", True):
+        if rnd.random() < 0.35:
+            extra = rnd.sample(["ChargingBase", "ReserveBase", "ChargingStation", "DispatchBase", "DispatchStation", "ChargeQueueing", "DispatchTrip"], rnd.randint(1, 4))
+            disp["valid_dispatch_states"] = ["Idle", "Repositioning"] + extra
+        if rnd.random() < 0.3:
+            disp["matching_range_km_threshold"] = rnd.choice([1, 5, 40])
+            disp["charging_range_km_threshold"] = rnd.choice([2, 10, 40])
+            disp["charging_range_km_soft_threshold"] = disp["charging_range_km_threshold"] + rnd.choice([5, 30])
+            disp["base_charging_range_km_threshold"] = rnd.choice([10, 100, 300])
+        if rnd.random() < 0.3:
+            disp["ideal_fastcharge_soc_limit"] = rnd.choice([0.3, 0.6, 0.95])
+        if rnd.random() < 0.25:
+            sim["search_res"] = rnd.choice([6, 8, 9])
     if isinstance(P.get("dispatcher"), dict):
         disp.update(P["dispatcher"])
     spec = {
